@@ -224,7 +224,9 @@ def short(x, n=400):
 
 
 def oracle_histories(ctx: vlib.Ctx, n: int, keep_cases=None, focus=None):
-    for _ in range(n):
+    for _k in range(n):
+        if _k % 25 == 24:
+            F.purge_caches()
         case = gen_case(ctx.rng, nops=ctx.rng.randint(3, 8), focus=focus)
         if "skip" in case:
             ctx.hist("families", case["skip"])
@@ -456,7 +458,9 @@ class Holder({base}):
 
 
 def oracle_discriminated(ctx: vlib.Ctx, n: int):
-    for _ in range(n):
+    for _k in range(n):
+        if _k % 25 == 24:
+            F.purge_caches()
         src, twin_src, ops, info = gen_discriminated(ctx.rng)
         case = {"fam": info["fam"], "src": src, "twin_src": twin_src, "ops": ops}
         res = run_history(case)
@@ -505,6 +509,8 @@ def oracle_threads(ctx: vlib.Ctx, nfam: int, reps: int):
     old = sys.getswitchinterval()
     try:
         for fi in range(nfam):
+            if fi % 10 == 9:
+                F.purge_caches()
             case = gen_case(ctx.rng, nops=3, max_classes=4)
             if "skip" in case or case["mode"] == "eager" or not case["ops"]:
                 continue
